@@ -49,7 +49,8 @@ def main():
         })
     man = {
         "version": 1,
-        "setup_cmd": "cd lean && lake build",
+        # only the modules of registered checks (work-in-progress files of other properties cannot break setup)
+        "setup_cmd": "cd lean && lake build " + " ".join(f"Props.{p} Drivers.{p}" for p in sorted(CLAIMED)),
         "hooks": {
             "guard": "DEEPHYPER_VERIF",
             "enable": "no source hooks: checks import deephyper from /repo/src (VERIF_REPO overrides) and control schedules from outside; DEEPHYPER_VERIF=1 is exported by ./check for future guarded hooks",
